@@ -519,7 +519,7 @@ MUTANTS = [
          old="		# (an empty result is a table with zero rows that still has every column, under its name)\n",
          new="		if all(len(col) == 0 for col in result_data):\n			return Table(())\n", rules=["f.joins"],
          desc="the defect repaired by fix eb6f046"),
-    dict(id="table-compare-stale-positionals", module=_T,
+    dict(id="table-compare-stale-positionals", module=_T, count=2, nth=1,
          old="		return Vector(tuple(op(x, other) for x in self.cols()))", new="		return Vector(tuple(op(x, other) for x in self.cols()), False, bool, True)",
          rules=["a.math-unnamed"], desc="reverts fix 0387431: (t > 2).name is <class 'bool'>"),
     dict(id="dropna-drops-name", module=_V, old="			name=self._name, as_row=self._display_as_row)\n\n	def isna", new="			as_row=self._display_as_row)\n\n	def isna",
